@@ -16,7 +16,7 @@ import (
 // its own SELECT / CLOSE), and records command + normalised result + audit.
 // It never decides whether a result is right: MemModelTrace does.
 
-var pool = []string{"a", "a/b", "a/b/c", "c", "c/b", "ab"}
+var pool = []string{"a", "a/b", "a/b/c", "ab", "c", "c/b"} // byte order
 
 var spellings = []string{":Seen", ":SEEN", ":seen", ":Deleted", ":DELETED", ":deleted", ":Flagged", ":fLAGGED",
 	":Answered", ":ANSWERED", ":Draft", ":draft", "kw1", "KW1", "Kw1", "kw2", "KW2"}
@@ -181,6 +181,21 @@ func (d *driver) pick() []cmdT {
 		ci := c.C - 1
 		sel := d.sel[ci]
 		r := d.rng.Intn(100)
+		nexist := 0
+		for _, n := range pool {
+			if d.exists[n] {
+				nexist++
+			}
+		}
+		if nexist < 2 && d.rng.Intn(2) == 0 {
+			r = 0 // CREATE
+		} else if sel != "" && d.count[ci] < 4 && d.rng.Intn(3) == 0 {
+			r = 30 // APPEND (into the selected mailbox half of the time)
+		} else if sel != "" && d.rng.Intn(3) != 0 {
+			r = 51 + d.rng.Intn(49) // a command of the selected state
+		} else if sel == "" && nexist > 0 && d.rng.Intn(4) == 0 {
+			r = 42 // SELECT
+		}
 		switch {
 		case r < 7:
 			n := d.pickName()
@@ -256,7 +271,11 @@ func (d *driver) pick() []cmdT {
 				c.Name = codes(sel)
 			}
 		case r < 49:
-			c.Op, c.Name = "SELECT", codes(d.pickName())
+			n := d.pickName()
+			for i := 0; i < 6 && !d.exists[n] && d.rng.Intn(5) != 0; i++ {
+				n = d.pickName()
+			}
+			c.Op, c.Name = "SELECT", codes(n)
 			if d.rng.Intn(8) == 0 {
 				c.Op = "EXAMINE"
 			}
